@@ -63,7 +63,6 @@ type caseResult struct {
 	End      string           `json:"end"` // final | deadlock | error
 	Fails    []map[string]any `json:"fails"`
 	Counters map[string]int   `json:"counters"`
-	Sbs      int              `json:"sbs"` // trace shows a wait loop ending between need[k]-- and the store
 	Retries  int              `json:"retries"`
 	WallMs   int              `json:"wall_ms"`
 }
@@ -187,14 +186,7 @@ func meshMain(args []string) int {
 		cs := specs[i]
 		spec, _ := json.Marshal(cs)
 		op := fmt.Sprintf("c19 %d %d %s", cs.N, cs.M, res.Trace)
-		if res.Sbs == 1 {
-			// unsynchronised reads race with the store: no exact prediction is
-			// compared (the part behind "|" is informational)
-			o.Op(op, "race sbs=1 | end="+res.End)
-			o.Count("race_end_" + res.End)
-		} else {
-			o.Op(op, "run=ok end="+res.End+" sbs=0 fused=ok")
-		}
+		o.Op(op, "run=ok end="+res.End)
 		o.Count("sessions")
 		o.Count(fmt.Sprintf("n%d_m%d", cs.N, cs.M))
 		o.Count("profile_" + cs.Profile)
@@ -267,8 +259,12 @@ func runChildOnce(self string, cs caseSpec) *caseResult {
 
 // ---------------------------------------------------------------- witnesses
 
-// The three Lean negation witnesses (Props/C19.lean: deadlockRun,
-// earlyReturnRun, badListRun) as forced schedules of the real code.
+// The three old-ordering witnesses (Props/C19.lean: oldDeadlockRun,
+// oldEarlyReturnRun, oldBadListRun) as forced schedules of the real code: the
+// accept goroutine is held at the point inside acceptConn until the wait loop
+// it used to race with has ended (or the gate times out).  Before b60eeb5
+// these schedules produced a hang / an incomplete table / "invalid peer ID";
+// on the repaired code the gates time out and every session ends final.
 func witnessSpecs() []caseSpec {
 	base := func(name string, n, m int) caseSpec {
 		cs := caseSpec{Name: name, N: n, M: m, Mode: "seq", Profile: "none", Strict: true,
@@ -305,11 +301,7 @@ func witnessMain(args []string) int {
 			cs.Port = 10000 + ((pid*131+7*rep+wi+2000)%2750)*8
 			res := runChild(self, cs)
 			op := fmt.Sprintf("c19 %d %d %s strict", cs.N, cs.M, res.Trace)
-			fused := "-"
-			if res.Sbs == 0 {
-				fused = "ok"
-			}
-			o.Op(op, fmt.Sprintf("run=ok end=%s sbs=%d fused=%s", res.End, res.Sbs, fused))
+			o.Op(op, "run=ok end="+res.End)
 			o.Count("witness_sessions")
 			kinds := map[string]bool{}
 			for _, f := range res.Fails {
@@ -323,11 +315,11 @@ func witnessMain(args []string) int {
 			ok := false
 			switch cs.Name {
 			case "deadlock":
-				ok = res.End == "deadlock" && kinds["hang"] && res.Sbs == 1
+				ok = res.End == "deadlock" && kinds["hang"]
 			case "early-return":
-				ok = res.End == "final" && kinds["incomplete-at-return"] && res.Sbs == 1
+				ok = res.End == "final" && kinds["incomplete-at-return"]
 			case "bad-list":
-				ok = res.End == "error" && res.Sbs == 1
+				ok = res.End == "error"
 				found := false
 				for k := range kinds {
 					if strings.Contains(k, "invalid peer ID 3") {
@@ -336,12 +328,26 @@ func witnessMain(args []string) int {
 				}
 				ok = ok && found
 			}
-			if ok {
+			switch {
+			case ok:
 				o.Count("witness_" + cs.Name + "_reproduced")
-			} else {
-				o.Count("witness_" + cs.Name + "_not_reproduced")
+			case res.End == "final" && len(res.Fails) == 0:
+				o.Count("witness_" + cs.Name + "_gone")
+			default:
+				o.Count("witness_" + cs.Name + "_other")
 			}
-			o.Sample(map[string]any{"witness": cs.Name, "end": res.End, "sbs": res.Sbs, "trace": clip(res.Trace, 400),
+			// a failure under a forced schedule is a failure of the real code
+			spec, _ := json.Marshal(cs)
+			for _, f := range res.Fails {
+				sig, _ := f["sig"].(string)
+				delete(f, "sig")
+				f["witness"] = cs.Name
+				f["spec"] = string(spec)
+				f["trace"] = clip(res.Trace, 6000)
+				f["rerun"] = fmt.Sprintf("c19 one -case '%s'", spec)
+				o.Fail(sig, f)
+			}
+			o.Sample(map[string]any{"witness": cs.Name, "end": res.End, "trace": clip(res.Trace, 400),
 				"kinds": fmt.Sprint(kinds)})
 		}
 	}
